@@ -556,7 +556,13 @@ impl<const BITS: usize, const LIMBS: usize> Shl<Self> for Uint<BITS, LIMBS> {
         // on a 128-bit platform with 2.3 exabytes of memory. In this case,
         // the code produces incorrect output.
         #[allow(clippy::cast_possible_truncation)]
-        self.wrapping_shl(rhs.as_limbs()[0] as usize)
+        let amount = if rhs.as_limbs()[1..].iter().all(|&limb| limb == 0) {
+            rhs.as_limbs()[0] as usize
+        } else {
+            // Amounts of 2**64 and above shift everything out.
+            usize::MAX
+        };
+        self.wrapping_shl(amount)
     }
 }
 
@@ -582,7 +588,13 @@ impl<const BITS: usize, const LIMBS: usize> Shr<Self> for Uint<BITS, LIMBS> {
         // on a 128-bit platform with 2.3 exabytes of memory. In this case,
         // the code produces incorrect output.
         #[allow(clippy::cast_possible_truncation)]
-        self.wrapping_shr(rhs.as_limbs()[0] as usize)
+        let amount = if rhs.as_limbs()[1..].iter().all(|&limb| limb == 0) {
+            rhs.as_limbs()[0] as usize
+        } else {
+            // Amounts of 2**64 and above shift everything out.
+            usize::MAX
+        };
+        self.wrapping_shr(amount)
     }
 }
 
